@@ -30,7 +30,7 @@ def empty : Interner := { buffer := [], ends := [], dedup := [] }
 def slice (buffer : List Nat) (start stop : Nat) : Res Str :=
   if start ≤ stop ∧ stop ≤ buffer.length then .ok ((buffer.drop start).take (stop - start)) else .panic
 
-/-- `Interner::resolve` (interner.rs:170-185). Key `0` is not representable (`NonZeroU32`). -/
+/-- `Interner::resolve` (interner.rs:179-194). Key `0` is not representable (`NonZeroU32`). -/
 def resolve (st : Interner) (k : Nat) : Res (Option Str) :=
   match k with
   | 0 => .ok none
@@ -74,7 +74,7 @@ def populate (d : AList Nat (List Nat)) (hash key : Nat) : AList Nat (List Nat) 
   | some l => ainsert hash (key :: l) d      -- Occupied: new node in front, old list behind
   | none => ainsert hash [key] d             -- Vacant
 
-/-- `Interner::get_or_intern` (interner.rs:132-147) -/
+/-- `Interner::get_or_intern` (interner.rs:141-156) -/
 def getOrIntern (h : Str → Nat) (st : Interner) (s : Str) : Res (Interner × Nat) :=
   match getInternal st s (h s) with
   | .ok (some key) => .ok (st, key)
@@ -98,7 +98,7 @@ def internAll (h : Str → Nat) : Interner → List Str → Res (Interner × Lis
     | .panic => .panic
     | .fuel => .fuel
 
-/-- The loop of `Deserialize::deserialize` (interner.rs:246-253): `i`, `start`, remaining ends. -/
+/-- The loop of `Deserialize::deserialize` (interner.rs:273-279): `i`, `start`, remaining ends. -/
 def rebuildLoop (h : Str → Nat) (buffer : List Nat) :
     List Nat → Nat → Nat → AList Nat (List Nat) → Res (AList Nat (List Nat))
   | [], _, _, d => .ok d
